@@ -193,7 +193,7 @@ func callsNamed(f *ssa.Function, name string) []*ssa.Call {
 func sizeFromOld(x ssa.Value, old ssa.Value) bool {
 	sawSize := false
 	ok := derivesFrom(x, func(v ssa.Value) bool {
-		if fv, _, is := fieldOf(v); is && fv.Name() == "Size" {
+		if fv, _, is := fieldOf(v); is && fname(fv) == "Size" {
 			sawSize = true
 		}
 		return v == old
@@ -303,7 +303,7 @@ func checkC12(c *Ctx, r *Report) {
 			var sizeStore ssa.Value
 			eachInstr(f, func(in ssa.Instruction) {
 				if st, ok := in.(*ssa.Store); ok {
-					if fv, _, is := fieldOf(st.Addr); is && fv.Name() == "Size" && strings.Contains(fieldKeyOf(st.Addr.(*ssa.FieldAddr).X, st.Addr.(*ssa.FieldAddr).Field), "EntryMetadata") {
+					if fv, _, is := fieldOf(st.Addr); is && fname(fv) == "Size" && strings.Contains(fieldKeyOf(st.Addr.(*ssa.FieldAddr).X, st.Addr.(*ssa.FieldAddr).Field), "EntryMetadata") {
 						sizeStore = st.Val
 					}
 				}
@@ -457,7 +457,7 @@ func checkC12(c *Ctx, r *Report) {
 			if !ok {
 				return
 			}
-			if fv, _, is := fieldOf(st.Addr); is && fv.Name() == "rootDir" {
+			if fv, _, is := fieldOf(st.Addr); is && fname(fv) == "rootDir" {
 				if derivesFrom(st.Val, func(v ssa.Value) bool {
 					call, ok := v.(*ssa.Call)
 					return ok && strings.HasSuffix(calleeName(call), "AssertedPath).EnsureCleared")
@@ -476,7 +476,7 @@ func checkC12(c *Ctx, r *Report) {
 				if !ok {
 					return
 				}
-				if fv, _, is := fieldOf(st.Addr); is && fv.Name() == "byteSize" {
+				if fv, _, is := fieldOf(st.Addr); is && fname(fv) == "byteSize" {
 					if call, ok := st.Val.(*ssa.Call); ok && strings.HasSuffix(calleeName(call), "atomics.NewInt64") {
 						if v, ok := constInt(call.Call.Args[0]); ok && v == 0 {
 							zero = true
@@ -695,7 +695,7 @@ func fromGetCacheSize(v ssa.Value) bool {
 		}
 		// dynamic call of the closure field getCacheSize
 		if u, ok := call.Call.Value.(*ssa.UnOp); ok {
-			if fv, _, is := fieldOf(u.X); is && fv.Name() == "getCacheSize" {
+			if fv, _, is := fieldOf(u.X); is && fname(fv) == "getCacheSize" {
 				return true
 			}
 		}
